@@ -187,6 +187,9 @@ class Ctx:
         cov = dict(self.cov)
         if not cov["samples"]:
             cov["samples"] = ["(no sample recorded)"]
+        if "exhaustive" in cov and not isinstance(cov["exhaustive"], bool):      # the evidence schema wants a boolean
+            cov["exhaustive_note"] = str(cov["exhaustive"])
+            cov["exhaustive"] = False
         # evidence schema: model_checking wants states/transitions >= 1 when present
         if self.level == "model_checking" and (cov["states"] < 1 or cov["transitions"] < 1):
             cov.pop("states")
